@@ -12,7 +12,7 @@ import numpy as np
 
 from .. import tgen, tprog
 
-LEAN_TARGETS = ["YProofs.Props.C01", "YProofs.Props.C01Dot", "YProofs.Props.C01DotGen", "YProofs.Props.C01Vdot", "YProofs.Props.C01Trace", "YProofs.Props.C01Broadcast", "YProofs.Props.C01Legs", "YProofs.Props.C01Mask", "YProofs.Props.C01Diag", "YProofs.Props.C01Assoc"]
+LEAN_TARGETS = ["YProofs.Props.C01", "YProofs.Props.C01Dot", "YProofs.Props.C01DotGen", "YProofs.Props.C01Vdot", "YProofs.Props.C01Trace", "YProofs.Props.C01Broadcast", "YProofs.Props.C01Legs", "YProofs.Props.C01Mask", "YProofs.Props.C01Diag", "YProofs.Props.C01Assoc", "YProofs.Props.C01Prog"]
 LEVEL = "proof"
 TRANSLATORS = ["gen_sym"]
 DRIVER = "drv_c01"
